@@ -1,5 +1,6 @@
 import FiberModel.C16.Refine
 import FiberModel.C16.Dead
+import FiberModel.C16.Front
 /-
 C16 — property theorems.
 
@@ -29,7 +30,41 @@ structure GenOK (cfg : Cfg) (gen sgen : Nat → Bytes) : Prop where
 
 /-- the specification's view of a configuration built from the trusted-origin strings `raw` -/
 abbrev specOf (cfg : Cfg) (raw : List Bytes) : SpecCfg :=
-  specConfig cfg.backend cfg.ext cfg.single cfg.idle raw
+  specConfig cfg.backend cfg.ext cfg.single cfg.idle raw cfg.next cfg.cookie cfg.eh
+
+
+/-! ## Concrete generators, a concrete configuration and concrete requests, used by the non-vacuity
+    examples that follow each theorem -/
+
+/-- example generators: keys `t0, t1, …`, session ids `s0, s1, …` -/
+def genT (n : Nat) : Bytes := [116, 48 + n]
+def sgenT (n : Nat) : Bytes := [115, 48 + n]
+
+/-- trusted origins as a user may write them: wildcard; blanks, upper case, userinfo, root path -/
+def rawT : List Bytes := [b "https://*.example.com", b " HTTP://user:pw@Partner.io:8080/ "]
+
+def cfgT (be : Backend) (single : Bool) : Cfg :=
+  { backend := be, ext := .header, single := single, idle := 10,
+    origins := [b "http://partner.io:8080"], subs := [{ pre := b "https://", suf := b ".example.com" }] }
+
+/-- the constructor accepts the example configuration and stores exactly these tables -/
+example (be : Backend) (single : Bool) :
+    buildLoop rawT [] [] = some ((cfgT be single).origins, (cfgT be single).subs) := by
+  show buildLoop rawT [] [] = some ([b "http://partner.io:8080"], [{ pre := b "https://", suf := b ".example.com" }])
+  decide +kernel
+
+example (be : Backend) (single : Bool) : GenOK (cfgT be single) genT sgenT :=
+  ⟨fun n => by simp [genT], fun _ n m h => by simp [genT] at h; exact h, fun n => by simp [sgenT]⟩
+
+def get (ck sc : Bytes) : Req :=
+  { method := b "GET", ck := ck, sc := sc, hdr := [], qry := [], form := [], param := [], custom := [],
+    origin := [], referer := [], host := b "api.site.io", https := false,
+    del := false, failGet := false, failSet := false, failDel := false }
+def post (ck sc hdr : Bytes) : Req := { get ck sc with method := b "POST", hdr := hdr }
+def postFrom (ck hdr : Bytes) (origin : String) : Req := { post ck [] hdr with origin := b origin }
+
+def passes (cfg : Cfg) (ops : List Op) : List (Option Bool) :=
+  (run cfg genT sgenT {} ops).2.map (·.map (·.pass))
 
 /-! ## The main theorem -/
 
@@ -39,10 +74,19 @@ abbrev specOf (cfg : Cfg) (raw : List Bytes) : SpecCfg :=
     evaluates on the real middleware's observations on every check run. -/
 theorem history_meets_spec (raw : List Bytes) (cfg : Cfg)
     (hbuild : buildLoop raw [] [] = some (cfg.origins, cfg.subs)) (hidle : 0 < cfg.idle)
-    (gen sgen : Nat → Bytes) (hgen : GenOK cfg gen sgen) (ops : List Op) (hwf : OpsWf ops) :
+    (gen sgen : Nat → Bytes) (hgen : GenOK cfg gen sgen) (ops : List Op) :
     specRun (specOf cfg raw) specInit ops (runObs cfg gen sgen {} ops) = none :=
-  run_refines raw cfg hbuild gen sgen hgen.key_nonempty hgen.key_fresh hgen.sid_nonempty hidle ops hwf
+  run_refines raw cfg hbuild gen sgen hgen.key_nonempty hgen.key_fresh hgen.sid_nonempty hidle ops
     {} specInit (inv_init cfg gen)
+
+/-- non-vacuity: the oracle accepts the model's observations of a history with a forged token and
+    flags the same observations once the forged request is reported as having reached the handler -/
+example :
+    let ops := [Op.req (get [] []), Op.req (post (b "zz") [] (b "zz"))]
+    let obs := runObs (cfgT .storage false) genT sgenT {} ops
+    let forged := obs.map fun o => o.map fun o => if o.gens = [] then { o with pass := true } else o
+    (specRun (specOf (cfgT .storage false) rawT) specInit ops obs).isNone = true ∧
+    (specRun (specOf (cfgT .storage false) rawT) specInit ops forged).isSome = true := by decide +kernel
 
 /-! ## The clauses, read off for one more request after an arbitrary history -/
 
@@ -53,10 +97,10 @@ abbrev after (cfg : Cfg) (gen sgen : Nat → Bytes) (ops : List Op) : St := (run
     tied to the model state by the invariant, and lists only issued tokens as live. -/
 theorem history_state (raw : List Bytes) (cfg : Cfg)
     (hbuild : buildLoop raw [] [] = some (cfg.origins, cfg.subs)) (hidle : 0 < cfg.idle)
-    (gen sgen : Nat → Bytes) (hgen : GenOK cfg gen sgen) (ops : List Op) (hwf : OpsWf ops) :
+    (gen sgen : Nat → Bytes) (hgen : GenOK cfg gen sgen) (ops : List Op) :
     ∃ s, specEnd (specOf cfg raw) specInit ops (runObs cfg gen sgen {} ops) = some s ∧
       Inv cfg gen (after cfg gen sgen ops) s ∧ LiveIssued s :=
-  run_refines_end raw cfg hbuild gen sgen hgen.key_nonempty hgen.key_fresh hgen.sid_nonempty hidle ops hwf
+  run_refines_end raw cfg hbuild gen sgen hgen.key_nonempty hgen.key_fresh hgen.sid_nonempty hidle ops
     {} specInit (inv_init cfg gen) liveIssued_init
 
 /-- **An unsafe request reaches the handler only if …** After any history, if a request with an
@@ -67,8 +111,8 @@ theorem history_state (raw : List Bytes) (cfg : Cfg)
     request; the origin clause holds; and no storage call failed before the handler was entered. -/
 theorem unsafe_pass_requires_live_token (raw : List Bytes) (cfg : Cfg)
     (hbuild : buildLoop raw [] [] = some (cfg.origins, cfg.subs)) (hidle : 0 < cfg.idle)
-    (gen sgen : Nat → Bytes) (hgen : GenOK cfg gen sgen) (ops : List Op) (hwf : OpsWf ops)
-    (q : Req) (hwo : q.ourl.wf) (hwr : q.rurl.wf) (hunsafe : isSafe q.method = false)
+    (gen sgen : Nat → Bytes) (hgen : GenOK cfg gen sgen) (ops : List Op)
+    (q : Req) (hnext : skipped cfg q = false) (hunsafe : isSafe q.method = false)
     (hpass : (handle cfg gen sgen (after cfg gen sgen ops) q).2.pass = true) :
     ∃ s, specEnd (specOf cfg raw) specInit ops (runObs cfg gen sgen {} ops) = some s ∧
       (∃ t, t ∈ presented cfg.ext q ∧ t ≠ [] ∧ t = q.ck ∧ s.liveAt t = true ∧
@@ -76,10 +120,10 @@ theorem unsafe_pass_requires_live_token (raw : List Bytes) (cfg : Cfg)
         (cfg.backend ≠ .storage → heldBy s t q.sc = true)) ∧
       originClause (specOf cfg raw) q = true ∧
       (handle cfg gen sgen (after cfg gen sgen ops) q).2.early = false := by
-  obtain ⟨s, hend, hinv, hli⟩ := history_state raw cfg hbuild hidle gen sgen hgen ops hwf
+  obtain ⟨s, hend, hinv, hli⟩ := history_state raw cfg hbuild hidle gen sgen hgen ops
   obtain ⟨s', hs, _⟩ := handle_refines raw cfg hbuild gen sgen hgen.key_nonempty hgen.key_fresh
-    hgen.sid_nonempty hidle _ s q hwo hwr hinv
-  obtain ⟨he, ho, t, h1, h2, h3, h4, _, h6⟩ := specReq_ok_unsafe_pass _ s q _ s' hs hunsafe hpass
+    hgen.sid_nonempty hidle _ s q hinv
+  obtain ⟨he, ho, t, h1, h2, h3, h4, _, h6⟩ := specReq_ok_unsafe_pass _ s q _ s' hs hnext hunsafe hpass
   refine ⟨s, hend, ⟨t, h1, h2, h3, h4, ?_, fun hb => h6 (by simp [specConfig, hb])⟩, ho, he⟩
   -- live in `s`, hence issued before this request
   unfold SpecSt.liveAt at h4
@@ -88,46 +132,69 @@ theorem unsafe_pass_requires_live_token (raw : List Bytes) (cfg : Cfg)
     exact (hinv.issued t).mp (hli t l hl)
   · cases h4
 
+/-- non-vacuity: issue → use → replay of a single-use token: the hypothesis "an unsafe request reaches
+    the handler" is met by the second request and refuted for the third -/
+example : passes (cfgT .storage true)
+    [.req (get [] []), .req (post (genT 0) [] (genT 0)), .req (post (genT 0) [] (genT 0))]
+    = [some true, some true, some false] := by decide +kernel
+
 /-- **Expired, consumed, deleted or forged tokens are refused**: an unsafe request whose cookie token
     is not live in the specification's bookkeeping does not reach the handler. -/
 theorem dead_token_rejected (raw : List Bytes) (cfg : Cfg)
     (hbuild : buildLoop raw [] [] = some (cfg.origins, cfg.subs)) (hidle : 0 < cfg.idle)
-    (gen sgen : Nat → Bytes) (hgen : GenOK cfg gen sgen) (ops : List Op) (hwf : OpsWf ops)
-    (q : Req) (hwo : q.ourl.wf) (hwr : q.rurl.wf) (hunsafe : isSafe q.method = false)
+    (gen sgen : Nat → Bytes) (hgen : GenOK cfg gen sgen) (ops : List Op)
+    (q : Req) (hnext : skipped cfg q = false) (hunsafe : isSafe q.method = false)
     (s : SpecSt) (hs : specEnd (specOf cfg raw) specInit ops (runObs cfg gen sgen {} ops) = some s)
     (hdead : s.liveAt q.ck = false) :
     (handle cfg gen sgen (after cfg gen sgen ops) q).2.pass = false := by
   cases hp : (handle cfg gen sgen (after cfg gen sgen ops) q).2.pass
   · rfl
   · obtain ⟨s', hs', ⟨t, _, _, h3, h4, _, _⟩, _⟩ :=
-      unsafe_pass_requires_live_token raw cfg hbuild hidle gen sgen hgen ops hwf q hwo hwr hunsafe hp
+      unsafe_pass_requires_live_token raw cfg hbuild hidle gen sgen hgen ops q hnext hunsafe hp
     rw [hs] at hs'
     cases hs'
     rw [h3, hdead] at h4
     cases h4
 
+/-- non-vacuity: a multi-use token is extended on use and refused once the idle period has passed;
+    forged and cookie/header mismatching tokens are refused -/
+example : passes (cfgT .storage false)
+    [.req (get [] []), .adv 9, .req (post (genT 0) [] (genT 0)), .adv 9, .req (post (genT 0) [] (genT 0)),
+     .adv 10, .req (post (genT 0) [] (genT 0)), .req (post (b "zz") [] (b "zz")),
+     .req (get [] []), .req (post (genT 1) [] (genT 0))]
+    = [some true, none, some true, none, some true, none, some false, some false, some true, some false] := by
+  decide +kernel
+
 /-- **If the token store fails the request is rejected**: an unsafe request during which a storage
     call failed before the handler could be entered does not reach it. -/
 theorem store_failure_rejects (raw : List Bytes) (cfg : Cfg)
     (hbuild : buildLoop raw [] [] = some (cfg.origins, cfg.subs)) (hidle : 0 < cfg.idle)
-    (gen sgen : Nat → Bytes) (hgen : GenOK cfg gen sgen) (ops : List Op) (hwf : OpsWf ops)
-    (q : Req) (hwo : q.ourl.wf) (hwr : q.rurl.wf) (hunsafe : isSafe q.method = false)
+    (gen sgen : Nat → Bytes) (hgen : GenOK cfg gen sgen) (ops : List Op)
+    (q : Req) (hnext : skipped cfg q = false) (hunsafe : isSafe q.method = false)
     (hfail : (handle cfg gen sgen (after cfg gen sgen ops) q).2.early = true) :
     (handle cfg gen sgen (after cfg gen sgen ops) q).2.pass = false := by
   cases hp : (handle cfg gen sgen (after cfg gen sgen ops) q).2.pass
   · rfl
   · obtain ⟨_, _, _, _, he⟩ :=
-      unsafe_pass_requires_live_token raw cfg hbuild hidle gen sgen hgen ops hwf q hwo hwr hunsafe hp
+      unsafe_pass_requires_live_token raw cfg hbuild hidle gen sgen hgen ops q hnext hunsafe hp
     rw [hfail] at he
     cases he
+
+/-- non-vacuity: with a failing store the hypothesis (`early`) is met and the request is turned away;
+    the same request without the fault passes -/
+example : ((run (cfgT .storage false) genT sgenT {}
+      [.req (get [] []), .req { post (genT 0) [] (genT 0) with failSet := true },
+       .req { post (genT 0) [] (genT 0) with failGet := true }, .req (post (genT 0) [] (genT 0))]).2.map
+    (·.map fun r => (r.pass, r.early))) =
+    [some (true, false), some (false, true), some (false, true), some (true, false)] := by decide +kernel
 
 /-- **Tokens of different clients never mix** (session back-ends): an unsafe request presenting a
     token that the specification knows as handed to another session than the one named by the
     request's session cookie does not reach the handler. -/
 theorem foreign_session_token_rejected (raw : List Bytes) (cfg : Cfg)
     (hbuild : buildLoop raw [] [] = some (cfg.origins, cfg.subs)) (hidle : 0 < cfg.idle)
-    (gen sgen : Nat → Bytes) (hgen : GenOK cfg gen sgen) (ops : List Op) (hwf : OpsWf ops)
-    (q : Req) (hwo : q.ourl.wf) (hwr : q.rurl.wf) (hunsafe : isSafe q.method = false)
+    (gen sgen : Nat → Bytes) (hgen : GenOK cfg gen sgen) (ops : List Op)
+    (q : Req) (hnext : skipped cfg q = false) (hunsafe : isSafe q.method = false)
     (hb : cfg.backend ≠ .storage)
     (s : SpecSt) (hs : specEnd (specOf cfg raw) specInit ops (runObs cfg gen sgen {} ops) = some s)
     (hother : heldBy s q.ck q.sc = false) :
@@ -135,28 +202,59 @@ theorem foreign_session_token_rejected (raw : List Bytes) (cfg : Cfg)
   cases hp : (handle cfg gen sgen (after cfg gen sgen ops) q).2.pass
   · rfl
   · obtain ⟨s', hs', ⟨t, _, _, h3, _, _, h6⟩, _⟩ :=
-      unsafe_pass_requires_live_token raw cfg hbuild hidle gen sgen hgen ops hwf q hwo hwr hunsafe hp
+      unsafe_pass_requires_live_token raw cfg hbuild hidle gen sgen hgen ops q hnext hunsafe hp
     rw [hs] at hs'
     cases hs'
     have := h6 hb
     rw [h3, hother] at this
     cases this
 
+/-- non-vacuity: two clients behind the session middleware: each one's token works with its own
+    session only -/
+example : passes (cfgT .sessMw false)
+    [.req (get [] []), .req (get [] []),
+     .req (post (genT 0) (sgenT 0) (genT 0)), .req (post (genT 1) (sgenT 1) (genT 1)),
+     .req (post (genT 0) (sgenT 1) (genT 0)), .req (post (genT 1) (sgenT 0) (genT 1))]
+    = [some true, some true, some true, some true, some false, some false] := by decide +kernel
+
+/-- … and without the session middleware; `DeleteToken` (a safe request with `del`) kills the token -/
+example : passes (cfgT .sessStore false)
+    [.req (get [] []), .req (post (genT 0) (sgenT 0) (genT 0)), .req (post (genT 0) [] (genT 0)),
+     .req { get (genT 0) (sgenT 0) with del := true }, .req (post (genT 0) (sgenT 0) (genT 0))]
+    = [some true, some true, some false, some true, some false] := by decide +kernel
+
 /-- **Requests from a foreign origin are refused**: an unsafe request whose Origin (or, on https
     without Origin, Referer) is present but neither the request's own origin nor admitted by a
     configured entry does not reach the handler, whatever token it carries. -/
 theorem foreign_origin_rejected (raw : List Bytes) (cfg : Cfg)
     (hbuild : buildLoop raw [] [] = some (cfg.origins, cfg.subs)) (hidle : 0 < cfg.idle)
-    (gen sgen : Nat → Bytes) (hgen : GenOK cfg gen sgen) (ops : List Op) (hwf : OpsWf ops)
-    (q : Req) (hwo : q.ourl.wf) (hwr : q.rurl.wf) (hunsafe : isSafe q.method = false)
+    (gen sgen : Nat → Bytes) (hgen : GenOK cfg gen sgen) (ops : List Op)
+    (q : Req) (hnext : skipped cfg q = false) (hunsafe : isSafe q.method = false)
     (hforeign : originClause (specOf cfg raw) q = false) :
     (handle cfg gen sgen (after cfg gen sgen ops) q).2.pass = false := by
   cases hp : (handle cfg gen sgen (after cfg gen sgen ops) q).2.pass
   · rfl
   · obtain ⟨_, _, _, ho, _⟩ :=
-      unsafe_pass_requires_live_token raw cfg hbuild hidle gen sgen hgen ops hwf q hwo hwr hunsafe hp
+      unsafe_pass_requires_live_token raw cfg hbuild hidle gen sgen hgen ops q hnext hunsafe hp
     rw [hforeign] at ho
     cases ho
+
+/-- non-vacuity: a trusted subdomain (upper case, userinfo, a path: only scheme and host count) and the
+    exact entry pass; a look-alike host, the bare domain, the wrong scheme, another port, a suffix only
+    in the path, an unparsable Origin do not, whatever the token -/
+example : passes (cfgT .storage false)
+    [.req (get [] []),
+     .req (postFrom (genT 0) (genT 0) "https://a.example.com"),
+     .req (postFrom (genT 0) (genT 0) "HTTPS://user@A.B.Example.com/x?y#z"),
+     .req (postFrom (genT 0) (genT 0) "http://partner.io:8080"),
+     .req (postFrom (genT 0) (genT 0) "https://evilexample.com"),
+     .req (postFrom (genT 0) (genT 0) "https://example.com"),
+     .req (postFrom (genT 0) (genT 0) "http://a.example.com"),
+     .req (postFrom (genT 0) (genT 0) "http://partner.io"),
+     .req (postFrom (genT 0) (genT 0) "https://evil.com/x.example.com"),
+     .req (postFrom (genT 0) (genT 0) "https://a.example.com:x")]
+    = [some true, some true, some true, some true, some false, some false, some false, some false, some false,
+       some false] := by decide +kernel
 
 /-- **Safe methods always pass and leave a valid token cookie.** After any history a safe request
     reaches the handler; unless the handler itself calls `DeleteToken`, the reply sets the CSRF cookie
@@ -165,22 +263,27 @@ theorem foreign_origin_rejected (raw : List Bytes) (cfg : Cfg)
     idle period from now. -/
 theorem safe_methods_pass_and_leave_cookie (raw : List Bytes) (cfg : Cfg)
     (hbuild : buildLoop raw [] [] = some (cfg.origins, cfg.subs)) (hidle : 0 < cfg.idle)
-    (gen sgen : Nat → Bytes) (hgen : GenOK cfg gen sgen) (ops : List Op) (hwf : OpsWf ops)
-    (q : Req) (hwo : q.ourl.wf) (hwr : q.rurl.wf) (hsafe : isSafe q.method = true) :
+    (gen sgen : Nat → Bytes) (hgen : GenOK cfg gen sgen) (ops : List Op)
+    (q : Req) (hsafe : isSafe q.method = true) :
     let st' := (handle cfg gen sgen (after cfg gen sgen ops) q).1
     let r := (handle cfg gen sgen (after cfg gen sgen ops) q).2
     r.pass = true ∧
-    (q.del = false → ∃ s t, specEnd (specOf cfg raw) specInit ops (runObs cfg gen sgen {} ops) = some s ∧
+    (skipped cfg q = false → q.del = false →
+      ∃ s t, specEnd (specOf cfg raw) specInit ops (runObs cfg gen sgen {} ops) = some s ∧
       r.ck = some t ∧ t ≠ [] ∧ (∃ i, i < st'.ntok ∧ gen i = t) ∧
       ((t = q.ck ∧ s.liveAt t = true) ∨ t ∈ r.gens) ∧
       ((r.fg || r.fs || r.fd) = false →
         probeHas (obsOf cfg st' r) t ((after cfg gen sgen ops).now + cfg.idle) = true)) := by
   intro st' r
-  obtain ⟨s, hend, hinv, hli⟩ := history_state raw cfg hbuild hidle gen sgen hgen ops hwf
+  obtain ⟨s, hend, hinv, hli⟩ := history_state raw cfg hbuild hidle gen sgen hgen ops
   obtain ⟨s', hs, hinv'⟩ := handle_refines raw cfg hbuild gen sgen hgen.key_nonempty hgen.key_fresh
-    hgen.sid_nonempty hidle _ s q hwo hwr hinv
-  obtain ⟨hp, hrest⟩ := specReq_ok_safe _ s q _ s' hs hsafe
-  refine ⟨hp, fun hnd => ?_⟩
+    hgen.sid_nonempty hidle _ s q hinv
+  have hp : r.pass = true := by
+    cases hsk : skipped cfg q
+    · exact (specReq_ok_safe (specOf cfg raw) s q _ s' hs hsk hsafe).1
+    · exact (specReq_skip (specOf cfg raw) s q _ hsk s' hs).2.1
+  refine ⟨hp, fun hnext hnd => ?_⟩
+  obtain ⟨_, hrest⟩ := specReq_ok_safe _ s q _ s' hs hnext hsafe
   obtain ⟨t, h1, h2, h3, h4, h5⟩ := hrest hnd
   refine ⟨s, t, hend, h1, h2, ?_, h4, fun hf => ?_⟩
   · -- issued: the successor specification state is `s` with the generated keys added
@@ -192,14 +295,20 @@ theorem safe_methods_pass_and_leave_cookie (raw : List Bytes) (cfg : Cfg)
     rw [hinv.now] at this
     exact this
 
+/-- non-vacuity: safe requests pass and get a cookie: a fresh token, the presented live one, a fresh
+    one again for a forged cookie -/
+example : ((run (cfgT .storage false) genT sgenT {}
+      [.req (get [] []), .req (get (genT 0) []), .req (get (b "zz") [])]).2.map (·.map fun r => (r.pass, r.ck))) =
+    [some (true, some (genT 0)), some (true, some (genT 0)), some (true, some (genT 1))] := by decide +kernel
+
 /-- **Only issued tokens are ever stored**: after any history every token the store probe finds is a
     key the generator handed out. -/
 theorem token_was_issued (raw : List Bytes) (cfg : Cfg)
     (hbuild : buildLoop raw [] [] = some (cfg.origins, cfg.subs)) (hidle : 0 < cfg.idle)
-    (gen sgen : Nat → Bytes) (hgen : GenOK cfg gen sgen) (ops : List Op) (hwf : OpsWf ops)
+    (gen sgen : Nat → Bytes) (hgen : GenOK cfg gen sgen) (ops : List Op)
     (it : LiveItem) (hit : it ∈ probe cfg (after cfg gen sgen ops)) (t : Bytes) (ht : it.tok = some t) :
     ∃ i, i < (after cfg gen sgen ops).ntok ∧ gen i = t := by
-  obtain ⟨s, _, hinv, _⟩ := history_state raw cfg hbuild hidle gen sgen hgen ops hwf
+  obtain ⟨s, _, hinv, _⟩ := history_state raw cfg hbuild hidle gen sgen hgen ops
   have htok := hinv.tokens
   unfold probe at hit
   have key : cfg.backend = .storage ∨ cfg.backend = .sessStore ∨ cfg.backend = .sessMw := by
@@ -222,6 +331,10 @@ theorem token_was_issued (raw : List Bytes) (cfg : Cfg)
       have := (htok.1 id k d (mem_lookup _ id _ htok.2 he)).2.1
       rw [← ht]; exact this
 
+/-- non-vacuity: after a history the probe does find tokens -/
+example : (probe (cfgT .storage false) (after (cfgT .storage false) genT sgenT [.req (get [] []), .req (get [] [])])).map (·.tok)
+    = [some (genT 1), some (genT 0)] := by decide +kernel
+
 /-! ## Dead tokens stay dead; single use -/
 
 /-- **Dead stays dead.** With a key generator that never repeats: a token that was issued and is not
@@ -230,48 +343,66 @@ theorem token_was_issued (raw : List Bytes) (cfg : Cfg)
 theorem dead_token_stays_dead (raw : List Bytes) (cfg : Cfg)
     (hbuild : buildLoop raw [] [] = some (cfg.origins, cfg.subs)) (hidle : 0 < cfg.idle)
     (gen sgen : Nat → Bytes) (hgen : GenOK cfg gen sgen) (hinj : Function.Injective gen)
-    (ops1 ops2 : List Op) (hwf1 : OpsWf ops1) (hwf2 : OpsWf ops2) (t : Bytes) (s1 : SpecSt)
+    (ops1 ops2 : List Op) (t : Bytes) (s1 : SpecSt)
     (hs1 : specEnd (specOf cfg raw) specInit ops1 (runObs cfg gen sgen {} ops1) = some s1)
     (hiss : t ∈ s1.issued) (hdead : s1.liveAt t = false) :
     ∃ s2, specEnd (specOf cfg raw) specInit (ops1 ++ ops2) (runObs cfg gen sgen {} (ops1 ++ ops2)) = some s2 ∧
       t ∈ s2.issued ∧ s2.liveAt t = false := by
-  obtain ⟨s, hend, hinv, hli⟩ := history_state raw cfg hbuild hidle gen sgen hgen ops1 hwf1
+  obtain ⟨s, hend, hinv, hli⟩ := history_state raw cfg hbuild hidle gen sgen hgen ops1
   rw [hs1] at hend
   cases hend
   obtain ⟨s2, hs2, _, _, hi2, hd2⟩ := run_dead_stays raw cfg hbuild gen sgen hgen.key_nonempty hinj
-    hgen.sid_nonempty hidle ops2 hwf2 _ s1 hinv hli t hiss hdead
+    hgen.sid_nonempty hidle ops2 _ s1 hinv hli t hiss hdead
   refine ⟨s2, ?_, hi2, hd2⟩
   rw [specEnd_append, hs1]
   exact hs2
+
+/-- non-vacuity: the extra hypothesis (a generator that never repeats) holds for the example generator -/
+example : Function.Injective genT := fun n m h => by simp [genT] at h; exact h
+
+/-- non-vacuity: a token that expired is issued and dead in the specification state, and stays so -/
+example :
+    let cfg := cfgT .storage false
+    let ops1 := [Op.req (get [] []), Op.adv 11]
+    let ops2 := [Op.req (get [] []), Op.adv 3]
+    ((specEnd (specOf cfg rawT) specInit ops1 (runObs cfg genT sgenT {} ops1)).map
+        fun s => (decide (genT 0 ∈ s.issued), s.liveAt (genT 0))) = some (true, false) ∧
+    ((specEnd (specOf cfg rawT) specInit (ops1 ++ ops2) (runObs cfg genT sgenT {} (ops1 ++ ops2))).map
+        fun s => (decide (genT 0 ∈ s.issued), s.liveAt (genT 0))) = some (true, false) := by decide +kernel
 
 /-- … hence an unsafe request presenting it is refused, however the history continues. -/
 theorem dead_token_never_accepted_again (raw : List Bytes) (cfg : Cfg)
     (hbuild : buildLoop raw [] [] = some (cfg.origins, cfg.subs)) (hidle : 0 < cfg.idle)
     (gen sgen : Nat → Bytes) (hgen : GenOK cfg gen sgen) (hinj : Function.Injective gen)
-    (ops1 ops2 : List Op) (hwf1 : OpsWf ops1) (hwf2 : OpsWf ops2) (s1 : SpecSt)
+    (ops1 ops2 : List Op) (s1 : SpecSt)
     (hs1 : specEnd (specOf cfg raw) specInit ops1 (runObs cfg gen sgen {} ops1) = some s1)
-    (q : Req) (hwo : q.ourl.wf) (hwr : q.rurl.wf) (hunsafe : isSafe q.method = false)
+    (q : Req) (hnext : skipped cfg q = false) (hunsafe : isSafe q.method = false)
     (hiss : q.ck ∈ s1.issued) (hdead : s1.liveAt q.ck = false) :
     (handle cfg gen sgen (after cfg gen sgen (ops1 ++ ops2)) q).2.pass = false := by
-  obtain ⟨s2, hs2, _, hd2⟩ := dead_token_stays_dead raw cfg hbuild hidle gen sgen hgen hinj ops1 ops2 hwf1 hwf2
+  obtain ⟨s2, hs2, _, hd2⟩ := dead_token_stays_dead raw cfg hbuild hidle gen sgen hgen hinj ops1 ops2
     q.ck s1 hs1 hiss hdead
-  exact dead_token_rejected raw cfg hbuild hidle gen sgen hgen (ops1 ++ ops2) (opsWf_append _ _ hwf1 hwf2)
-    q hwo hwr hunsafe s2 hs2 hd2
+  exact dead_token_rejected raw cfg hbuild hidle gen sgen hgen (ops1 ++ ops2)
+    q hnext hunsafe s2 hs2 hd2
+
+/-- non-vacuity: the expired token is refused later on -/
+example : passes (cfgT .storage false)
+    [.req (get [] []), .adv 11, .req (get [] []), .adv 3, .req (post (genT 0) [] (genT 0))]
+    = [some true, none, some true, none, some false] := by decide +kernel
 
 /-- **Single use.** With `SingleUseToken` and a generator that never repeats: once an unsafe request
     has reached the handler, the token it presented is issued but no longer live … -/
 theorem single_use_consumed (raw : List Bytes) (cfg : Cfg)
     (hbuild : buildLoop raw [] [] = some (cfg.origins, cfg.subs)) (hidle : 0 < cfg.idle)
     (gen sgen : Nat → Bytes) (hgen : GenOK cfg gen sgen) (hinj : Function.Injective gen)
-    (ops : List Op) (hwf : OpsWf ops) (q : Req) (hwo : q.ourl.wf) (hwr : q.rurl.wf)
+    (ops : List Op) (q : Req) (hnext : skipped cfg q = false)
     (hunsafe : isSafe q.method = false) (hsingle : cfg.single = true)
     (hpass : (handle cfg gen sgen (after cfg gen sgen ops) q).2.pass = true) :
     ∃ s', specEnd (specOf cfg raw) specInit (ops ++ [.req q]) (runObs cfg gen sgen {} (ops ++ [.req q])) = some s' ∧
       q.ck ∈ s'.issued ∧ s'.liveAt q.ck = false := by
-  obtain ⟨s, hend, hinv, hli⟩ := history_state raw cfg hbuild hidle gen sgen hgen ops hwf
+  obtain ⟨s, hend, hinv, hli⟩ := history_state raw cfg hbuild hidle gen sgen hgen ops
   obtain ⟨s', hs, _⟩ := handle_refines raw cfg hbuild gen sgen hgen.key_nonempty hgen.key_fresh
-    hgen.sid_nonempty hidle _ s q hwo hwr hinv
-  obtain ⟨_, _, t, _, hne, htq, hlive, _, _⟩ := specReq_ok_unsafe_pass _ s q _ s' hs hunsafe hpass
+    hgen.sid_nonempty hidle _ s q hinv
+  obtain ⟨_, _, t, _, hne, htq, hlive, _, _⟩ := specReq_ok_unsafe_pass _ s q _ s' hs hnext hunsafe hpass
   have hq : q.ck ∈ s.issued := by
     rw [← htq]
     unfold SpecSt.liveAt at hlive
@@ -283,7 +414,7 @@ theorem single_use_consumed (raw : List Bytes) (cfg : Cfg)
       (handle cfg gen sgen (after cfg gen sgen ops) q).2).ck = some t' → t' ≠ q.ck := by
     intro t' ht'
     have ht'' : (handle cfg gen sgen (after cfg gen sgen ops) q).2.ck = some t' := ht'
-    rcases handle_single_ck cfg gen sgen _ q hunsafe hsingle hpass with h | h
+    rcases handle_single_ck cfg gen sgen _ q hnext hunsafe hsingle hpass with h | h
     · rw [h] at ht''
       cases ht''
       intro e
@@ -295,33 +426,41 @@ theorem single_use_consumed (raw : List Bytes) (cfg : Cfg)
       cases ht''
       intro e
       exact hne (htq.trans e.symm)
-  obtain ⟨hd', hi'⟩ := specReq_single_consumes _ s q _ s' hs hunsafe hpass (by simp [specConfig, hsingle]) hq hnew hck
+  obtain ⟨hd', hi'⟩ := specReq_single_consumes _ s q _ s' hs hnext hunsafe hpass (by simp [specConfig, hsingle]) hq hnew hck
   refine ⟨s', ?_, hi', hd'⟩
   rw [specEnd_append, hend]
   exact specEnd_one _ cfg gen sgen _ s s' q hs
+
+/-- non-vacuity: under `SingleUseToken` an accepted unsafe request leaves its token issued and dead -/
+example :
+    let cfg := cfgT .storage true
+    let ops := [Op.req (get [] []), Op.req (post (genT 0) [] (genT 0))]
+    (passes cfg ops = [some true, some true]) ∧
+    ((specEnd (specOf cfg rawT) specInit ops (runObs cfg genT sgenT {} ops)).map
+        fun s => (decide (genT 0 ∈ s.issued), s.liveAt (genT 0))) = some (true, false) := by decide +kernel
 
 /-- … and is never accepted again: any later unsafe request presenting that token is refused. -/
 theorem single_use_never_replayed (raw : List Bytes) (cfg : Cfg)
     (hbuild : buildLoop raw [] [] = some (cfg.origins, cfg.subs)) (hidle : 0 < cfg.idle)
     (gen sgen : Nat → Bytes) (hgen : GenOK cfg gen sgen) (hinj : Function.Injective gen)
-    (ops later : List Op) (hwf : OpsWf ops) (hwf2 : OpsWf later) (q : Req) (hwo : q.ourl.wf) (hwr : q.rurl.wf)
+    (ops later : List Op) (q : Req) (hnext : skipped cfg q = false)
     (hunsafe : isSafe q.method = false) (hsingle : cfg.single = true)
     (hpass : (handle cfg gen sgen (after cfg gen sgen ops) q).2.pass = true)
-    (q' : Req) (hwo' : q'.ourl.wf) (hwr' : q'.rurl.wf) (hunsafe' : isSafe q'.method = false)
+    (q' : Req) (hnext' : skipped cfg q' = false) (hunsafe' : isSafe q'.method = false)
     (hsame : q'.ck = q.ck) :
     (handle cfg gen sgen (after cfg gen sgen ((ops ++ [.req q]) ++ later)) q').2.pass = false := by
-  obtain ⟨s', hs', hi', hd'⟩ := single_use_consumed raw cfg hbuild hidle gen sgen hgen hinj ops hwf q hwo hwr
-    hunsafe hsingle hpass
-  have hwf1 : OpsWf (ops ++ [.req q]) := by
-    apply opsWf_append _ _ hwf
-    intro x hx
-    have : x = q := by simpa using hx
-    rw [this]; exact ⟨hwo, hwr⟩
+  obtain ⟨s', hs', hi', hd'⟩ := single_use_consumed raw cfg hbuild hidle gen sgen hgen hinj ops q
+    hnext hunsafe hsingle hpass
   have hi'' : q'.ck ∈ s'.issued := by rw [hsame]; exact hi'
   have hd'' : s'.liveAt q'.ck = false := by rw [hsame]; exact hd'
-  have h := dead_token_never_accepted_again raw cfg hbuild hidle gen sgen hgen hinj (ops ++ [.req q]) later hwf1 hwf2
-    s' hs' q' hwo' hwr' hunsafe' hi'' hd''
+  have h := dead_token_never_accepted_again raw cfg hbuild hidle gen sgen hgen hinj (ops ++ [.req q]) later
+    s' hs' q' hnext' hunsafe' hi'' hd''
   exact h
+
+/-- non-vacuity: … and the replay is refused, also after other requests -/
+example : passes (cfgT .storage true)
+    [.req (get [] []), .req (post (genT 0) [] (genT 0)), .req (get [] []), .adv 1, .req (post (genT 0) [] (genT 0))]
+    = [some true, some true, some true, none, some false] := by decide +kernel
 
 /-! ## The origin checks -/
 
@@ -333,9 +472,16 @@ theorem single_use_never_replayed (raw : List Bytes) (cfg : Cfg)
     of `UrlInfo`). -/
 theorem origin_gate (raw : List Bytes) (cfg : Cfg)
     (hbuild : buildLoop raw [] [] = some (cfg.origins, cfg.subs)) (q : Req)
-    (hwo : q.ourl.wf) (hwr : q.rurl.wf) (hgate : originGate cfg q = true) :
+    (hgate : originGate cfg q = true) :
     originClause (specOf cfg raw) q = true :=
-  gate_sound raw cfg hbuild q hwo hwr hgate
+  gate_sound raw cfg hbuild q hgate
+
+/-- non-vacuity: the gate does open (trusted subdomain; same origin by Referer on https) and close -/
+example : [postFrom [] [] "https://a.example.com", postFrom [] [] "https://evilexample.com",
+           { post [] [] [] with https := true, referer := b "https://API.site.io/page?x=1" },
+           { post [] [] [] with https := true, referer := b "https://evil.io/api.site.io" },
+           { post [] [] [] with https := true }].map (originGate (cfgT .storage false))
+    = [true, false, true, false, false] := by decide +kernel
 
 /-- **Wildcard entries match on a dot boundary only**: `scheme://*.domain` admits exactly the origins
     with that scheme whose host ends in `.domain`. -/
@@ -353,6 +499,14 @@ theorem wildcard_admits_iff (s d scheme host : Bytes) :
     rw [List.isSuffixOf_iff_suffix]
     exact ⟨pre, hp.symm⟩
 
+/-- non-vacuity: what the example wildcard entry denotes, and what it admits -/
+example : specEntry (b "https://*.example.com") = some (.wild (b "https") (b "example.com")) ∧
+    (TrustEntry.wild (b "https") (b "example.com")).admits (b "https") (b "a.b.example.com") = true ∧
+    (TrustEntry.wild (b "https") (b "example.com")).admits (b "https") (b "evilexample.com") = false ∧
+    (TrustEntry.wild (b "https") (b "example.com")).admits (b "https") (b "example.com") = false ∧
+    (TrustEntry.wild (b "https") (b "example.com")).admits (b "http") (b "a.example.com") = false := by
+  decide +kernel
+
 /-- the constructor-level statement behind `origin_gate`: everything the handler trusts, the
     configured strings admit -/
 theorem trusted_only_if_configured (raw : List Bytes) (cfg : Cfg)
@@ -361,110 +515,147 @@ theorem trusted_only_if_configured (raw : List Bytes) (cfg : Cfg)
     (raw.filterMap specEntry).any (·.admits scheme host) = true :=
   trusted_sound raw cfg hbuild scheme host hc ht
 
-end C16
+/-- non-vacuity of "the constructor accepted": it does refuse — a wildcard in front of a userinfo (the
+    defect fixed by 02d1af6: the stored suffix lost its dot), a second wildcard, a path, another
+    scheme, no host -/
+example : [b "https://*.user@example.com", b "https://*.*.com", b "https://example.com/path", b "ftp://example.com",
+           b "https://", b "example.com", b "https://*.[::1]"].map (fun e => (buildLoop [e] [] []).isSome)
+    = [false, false, false, false, false, false, false] := by decide +kernel
 
-/-! ## Non-vacuity: the hypotheses are met by concrete generators, configurations and histories, and
-    the clauses bite -/
+/-- non-vacuity: the example tables do trust something -/
+example : trusted (cfgT .storage false) (b "https" ++ b "://" ++ b "a.example.com") = true ∧
+    trusted (cfgT .storage false) (b "http" ++ b "://" ++ b "partner.io:8080") = true := by decide +kernel
 
-namespace C16
-open B
+/-- **The trust decision is exact** (both directions): for a configuration the constructor accepted,
+    the handler trusts `scheme://host` — by equality with a stored exact origin or by
+    `subdomain.match` on a stored prefix/suffix pair — if and only if one of the configured strings,
+    read as `net/url` reads it (blanks, userinfo, letter case, a root path, empty `?`/`#` dropped),
+    admits that scheme and host: the same scheme and host, or for `scheme://*.domain` the same scheme
+    and a host ending in `.domain`. (`scheme` is colon-free, as every scheme `net/url` reports.) -/
+theorem trusted_iff_configured (raw : List Bytes) (cfg : Cfg)
+    (hbuild : buildLoop raw [] [] = some (cfg.origins, cfg.subs)) (scheme host : Bytes) (hc : 58 ∉ scheme) :
+    trusted cfg (scheme ++ b "://" ++ host) = (raw.filterMap specEntry).any (·.admits scheme host) :=
+  trusted_iff raw cfg hbuild scheme host hc
 
-/-- example generators: keys `t0, t1, …`, session ids `s0, s1, …` -/
-def genT (n : Nat) : Bytes := [116, 48 + n]
-def sgenT (n : Nat) : Bytes := [115, 48 + n]
+/-- non-vacuity: both sides are `true` for a subdomain of the example wildcard entry and `false` for
+    the look-alike -/
+example : (rawT.filterMap specEntry).any (·.admits (b "https") (b "a.example.com")) = true ∧
+    (rawT.filterMap specEntry).any (·.admits (b "https") (b "evilexample.com")) = false ∧
+    (rawT.filterMap specEntry).any (·.admits (b "http") (b "partner.io:8080")) = true := by decide +kernel
 
-def rawT : List Bytes := [b "https://*.example.com", b " http://Partner.io/ "]
+/-- **The gate decides exactly as the specification reads the headers.** With an Origin present
+    (not empty, not `null`) the gate opens iff that origin is allowed (parses; same scheme and host as
+    the request, or admitted by a configured string); without one, on https with a Referer present,
+    iff the referer's origin is allowed; on https with neither header the gate stays shut (strict
+    referer checking: stricter than the property asks); on plain http without Origin it opens. So no
+    foreign origin gets in, and no legitimate origin is kept out. -/
+theorem origin_gate_exact (raw : List Bytes) (cfg : Cfg)
+    (hbuild : buildLoop raw [] [] = some (cfg.origins, cfg.subs)) (q : Req) :
+    originGate cfg q =
+      if originPresent q then originAllowed (specOf cfg raw) q q.ourl
+      else if q.https then
+        (if toLower q.referer ≠ [] then originAllowed (specOf cfg raw) q q.rurl else false)
+      else true :=
+  gate_exact raw cfg hbuild q
 
-def cfgT (be : Backend) (single : Bool) : Cfg :=
-  { backend := be, ext := .header, single := single, idle := 10,
-    origins := [b "http://partner.io"], subs := [{ pre := b "https://", suf := b ".example.com" }] }
+/-- non-vacuity: each of the four branches occurs -/
+example : [postFrom [] [] "https://a.example.com",
+           { post [] [] [] with https := true, referer := b "https://API.site.io/page?x=1" },
+           { post [] [] [] with https := true }, post [] [] []].map
+      (fun q => (originPresent q, q.https, decide (toLower q.referer ≠ []), originGate (cfgT .storage false) q))
+    = [(true, false, false, true), (false, true, true, true), (false, true, false, false), (false, false, false, true)] := by
+  decide +kernel
 
-/-- the constructor accepts the example configuration and stores exactly these tables -/
-example (be : Backend) (single : Bool) :
-    buildLoop rawT [] [] = some ((cfgT be single).origins, (cfgT be single).subs) := by
-  show buildLoop rawT [] [] = some ([b "http://partner.io"], [{ pre := b "https://", suf := b ".example.com" }])
-  decide
+/-- **The URL reader is the transcription of `net/url`**: the scheme it reports for any header text
+    holds no colon (formerly an assumption on a parameter, checked per case by the driver). -/
+theorem url_scheme_no_colon (q : Req) : 58 ∉ q.ourl.scheme ∧ 58 ∉ q.rurl.scheme :=
+  ⟨q.ourl_wf, q.rurl_wf⟩
 
-example (be : Backend) (single : Bool) : GenOK (cfgT be single) genT sgenT :=
-  ⟨fun n => by simp [genT], fun _ n m h => by simp [genT] at h; exact h, fun n => by simp [sgenT]⟩
+/-- non-vacuity: what the reader reports for a header with userinfo, upper case, port, path -/
+example : (postFrom [] [] "HTTPS://user:pw@A.Example.com:8443/x?y#z").ourl
+    = { ok := true, scheme := b "https", host := b "a.example.com:8443" } ∧
+    (postFrom [] [] "https://[::1]:3000").ourl = { ok := true, scheme := b "https", host := b "[::1]:3000" } ∧
+    (postFrom [] [] "https://a.example.com:x").ourl.ok = false := by decide +kernel
 
-def noUrl : UrlInfo := { ok := true, scheme := [], host := [] }
-def urlOf (scheme host : String) : UrlInfo := { ok := true, scheme := b scheme, host := b host }
+/-! ## In front of the token logic: `Next`, `ErrorHandler`, the cookie attributes -/
 
-def get (ck sc : Bytes) : Req :=
-  { method := b "GET", ck := ck, sc := sc, hdr := [], qry := [], form := [], param := [], custom := [],
-    origin := [], ourl := noUrl, referer := [], rurl := noUrl, host := b "api.site.io", https := false,
-    del := false, failGet := false, failSet := false, failDel := false }
-def post (ck sc hdr : Bytes) : Req := { get ck sc with method := b "POST", hdr := hdr }
-def postFrom (ck hdr : Bytes) (origin scheme host : String) : Req :=
-  { post ck [] hdr with origin := b origin, ourl := urlOf scheme host }
+/-- a `Next` that exempts requests carrying the header it looks for, a custom ErrorHandler answering each error with its own status, and cookie fields -/
+def cfgF : Cfg :=
+  { cfgT .storage false with
+    next := some (fun q => q.skip),
+    eh := fun e => match e with
+      | .tokenInvalid => 461 | .tokenNotFound => 462 | .originNoMatch => 463 | .missing => 464 | _ => 469,
+    cookie := { domain := b "example.com", path := b "app", sameSite := b "NONE", httpOnly := true } }
 
-def passes (cfg : Cfg) (ops : List Op) : List (Option Bool) :=
-  (run cfg genT sgenT {} ops).2.map (·.map (·.pass))
+/-- **`Next` makes the middleware step aside.** After any history, a request that `Config.Next`
+    exempts reaches the protected handler, gets no csrf cookie and no token, and leaves the
+    specification's bookkeeping (issued and live tokens) exactly as it was: nothing a skipped request
+    carries can issue, extend, consume or delete a token. -/
+theorem next_skips_middleware (raw : List Bytes) (cfg : Cfg)
+    (hbuild : buildLoop raw [] [] = some (cfg.origins, cfg.subs)) (hidle : 0 < cfg.idle)
+    (gen sgen : Nat → Bytes) (hgen : GenOK cfg gen sgen) (ops : List Op)
+    (q : Req) (hskip : skipped cfg q = true) :
+    let r := (handle cfg gen sgen (after cfg gen sgen ops) q).2
+    r.pass = true ∧ r.ck = none ∧ r.gens = [] ∧
+    ∃ s, specEnd (specOf cfg raw) specInit ops (runObs cfg gen sgen {} ops) = some s ∧
+      specEnd (specOf cfg raw) specInit (ops ++ [.req q]) (runObs cfg gen sgen {} (ops ++ [.req q])) = some s := by
+  intro r
+  obtain ⟨s, hend, hinv, hli⟩ := history_state raw cfg hbuild hidle gen sgen hgen ops
+  obtain ⟨s', hs, _⟩ := handle_refines raw cfg hbuild gen sgen hgen.key_nonempty hgen.key_fresh
+    hgen.sid_nonempty hidle _ s q hinv
+  obtain ⟨e, hp, hck, hg, _⟩ := specReq_skip (specOf cfg raw) s q _ hskip s' hs
+  refine ⟨hp, hck, hg, s, hend, ?_⟩
+  rw [specEnd_append, hend]
+  rw [e] at hs
+  exact specEnd_one _ cfg gen sgen _ s s q hs
 
-example : OpsWf [.req (get [] []), .req (postFrom (genT 0) (genT 0) "https://a.example.com" "https" "a.example.com")] := by
-  intro q hq
-  simp only [List.mem_cons, Op.req.injEq, List.mem_nil_iff, or_false] at hq
-  rcases hq with rfl | rfl <;> exact ⟨by unfold UrlInfo.wf; decide, by unfold UrlInfo.wf; decide⟩
+/-- non-vacuity: an unsafe request without any token passes when `Next` exempts it, and is refused
+    (with the ErrorHandler's status for a missing token) when it does not -/
+example : ((run cfgF genT sgenT {}
+      [.req { post [] [] [] with skip := true }, .req (post [] [] [])]).2.map
+    (·.map fun r => (r.pass, r.status, r.ck, r.gens.length))) =
+    [some (true, 200, none, 0), some (false, 464, none, 0)] := by decide +kernel
 
-/-- issue → use → replay of a single-use token: the hypothesis "an unsafe request reaches the handler"
-    of `unsafe_pass_requires_live_token` is met by the second request and refuted for the third -/
-example : passes (cfgT .storage true)
-    [.req (get [] []), .req (post (genT 0) [] (genT 0)), .req (post (genT 0) [] (genT 0))]
-    = [some true, some true, some false] := by decide
+/-- **The client sees the ErrorHandler's answer, the handler still does not run.** A request the
+    middleware is in charge of and turns away is answered with the status `Config.ErrorHandler`
+    produces for one of the errors — whatever that handler is (the theorems above hold for every
+    `cfg.eh`: what it answers never lets the protected handler run). -/
+theorem rejected_gets_error_handler_answer (cfg : Cfg) (gen sgen : Nat → Bytes) (st : St) (q : Req)
+    (hnext : skipped cfg q = false) (hrej : (handle cfg gen sgen st q).2.pass = false) :
+    ∃ e, (handle cfg gen sgen st q).2.status = cfg.eh e := by
+  rw [handle_of_not_skipped cfg gen sgen st q hnext] at hrej ⊢
+  exact handleCore_reject_status cfg gen sgen st q hrej
 
-/-- multi-use token: extended on use; refused once the idle period has passed; forged and
-    cookie/header mismatching tokens refused -/
-example : passes (cfgT .storage false)
-    [.req (get [] []), .adv 9, .req (post (genT 0) [] (genT 0)), .adv 9, .req (post (genT 0) [] (genT 0)),
-     .adv 10, .req (post (genT 0) [] (genT 0)), .req (post (b "zz") [] (b "zz")),
-     .req (get [] []), .req (post (genT 1) [] (genT 0))]
-    = [some true, none, some true, none, some true, none, some false, some false, some true, some false] := by
-  decide
+/-- non-vacuity: each refusal carries the status of its error — token missing, token ≠ cookie, token
+    not in the store (cookie expired), foreign origin — and the handler did not run -/
+example : ((run cfgF genT sgenT {}
+      [.req (get [] []), .req (post (genT 0) [] []), .req (post (genT 0) [] (b "zz")), .req (post (b "zz") [] (b "zz")),
+       .req (postFrom (genT 0) (genT 0) "https://evilexample.com"), .req (post (genT 0) [] (genT 0))]).2.map
+    (·.map fun r => (r.pass, r.status, r.ck))) =
+    [some (true, 200, some (genT 0)), some (false, 464, none), some (false, 461, none),
+     some (false, 462, some []), some (false, 463, none), some (true, 200, some (genT 0))] := by decide +kernel
 
-/-- origins: trusted subdomain and exact entry pass, look-alike host / wrong scheme / foreign host do
-    not, whatever the token -/
-example : passes (cfgT .storage false)
-    [.req (get [] []),
-     .req (postFrom (genT 0) (genT 0) "https://a.example.com" "https" "a.example.com"),
-     .req (postFrom (genT 0) (genT 0) "http://partner.io" "http" "partner.io"),
-     .req (postFrom (genT 0) (genT 0) "https://evilexample.com" "https" "evilexample.com"),
-     .req (postFrom (genT 0) (genT 0) "http://a.example.com" "http" "a.example.com"),
-     .req (postFrom (genT 0) (genT 0) "https://evil.com/x.example.com" "https" "evil.com")]
-    = [some true, some true, some true, some false, some false, some false] := by decide
+/-- **The csrf cookie carries the configured attributes**: whenever a reply sets the csrf cookie (a
+    token, or the empty value that expires it), its attributes are the configured Domain, Path (with a
+    leading slash), HttpOnly, SameSite (letter case ignored; `Lax` unless `Strict`/`None`/`Disabled`),
+    Secure (also switched on by `SameSite=None`), and — unless `CookieSessionOnly` — an `Expires` one
+    idle period ahead for a token and in the past for an expiring cookie. (The same clause is part of
+    `history_meets_spec` and is evaluated on the real `Set-Cookie` line on every run.) -/
+theorem cookie_attributes_as_configured (cfg : Cfg) (hidle : 0 < cfg.idle) (now : Nat) (r : Resp) (t : Bytes)
+    (hck : r.ck = some t) :
+    ∃ a, respAttrs cfg now r = some a ∧ attrsOK cfg.cookie cfg.idle now t a = true := by
+  refine ⟨attrsOf cfg.cookie cfg.idle now (t = []), ?_, attrsOf_ok cfg.cookie cfg.idle now t hidle⟩
+  unfold respAttrs
+  rw [hck]; rfl
 
-/-- a failing store: the hypothesis of `store_failure_rejects` is met (`early`) and the request is
-    turned away; the same request without the fault passes -/
-example : ((run (cfgT .storage false) genT sgenT {}
-      [.req (get [] []), .req { post (genT 0) [] (genT 0) with failSet := true },
-       .req { post (genT 0) [] (genT 0) with failGet := true }, .req (post (genT 0) [] (genT 0))]).2.map
-    (·.map fun r => (r.pass, r.early))) =
-    [some (true, false), some (false, true), some (false, true), some (true, false)] := by decide
-
-/-- two clients behind the session middleware: each one's token works with its own session only -/
-example : passes (cfgT .sessMw false)
-    [.req (get [] []), .req (get [] []),
-     .req (post (genT 0) (sgenT 0) (genT 0)), .req (post (genT 1) (sgenT 1) (genT 1)),
-     .req (post (genT 0) (sgenT 1) (genT 0)), .req (post (genT 1) (sgenT 0) (genT 1))]
-    = [some true, some true, some true, some true, some false, some false] := by decide
-
-/-- … and without it; `DeleteToken` (a safe request with `del`) kills the token -/
-example : passes (cfgT .sessStore false)
-    [.req (get [] []), .req (post (genT 0) (sgenT 0) (genT 0)), .req (post (genT 0) [] (genT 0)),
-     .req { get (genT 0) (sgenT 0) with del := true }, .req (post (genT 0) (sgenT 0) (genT 0))]
-    = [some true, some true, some false, some true, some false] := by decide
-
-/-- `single_use_never_replayed` / `dead_token_never_accepted_again`: their extra hypothesis (a generator
-    that never repeats) holds for the example generator, for every back-end -/
-example : Function.Injective genT := fun n m h => by simp [genT] at h; exact h
-
-/-- the oracle is not vacuous: it accepts the model's observations of a history with a forged token and
-    flags the same observations once the forged request is reported as having reached the handler -/
-example :
-    let ops := [Op.req (get [] []), Op.req (post (b "zz") [] (b "zz"))]
-    let obs := runObs (cfgT .storage false) genT sgenT {} ops
-    let forged := obs.map fun o => o.map fun o => if o.gens = [] then { o with pass := true } else o
-    (specRun (specOf (cfgT .storage false) rawT) specInit ops obs).isNone = true ∧
-    (specRun (specOf (cfgT .storage false) rawT) specInit ops forged).isSome = true := by decide
+/-- non-vacuity: the attributes of a token cookie and of an expiring one under the example fields
+    (`SameSite=NONE` switches Secure on; the path gets its slash) -/
+example : ((run cfgF genT sgenT {} [.adv 5, .req (get [] []), .req (post (b "zz") [] (b "zz"))]).2.map
+    (·.map fun r => respAttrs cfgF 5 r)) =
+    [none,
+     some (some { domain := b "example.com", path := b "/app", secure := true, httpOnly := true, sameSite := .none,
+                  expires := some 15 }),
+     some (some { domain := b "example.com", path := b "/app", secure := true, httpOnly := true, sameSite := .none,
+                  expires := some (-3595) })] := by decide +kernel
 
 end C16
